@@ -222,9 +222,10 @@ fn main() {
 		}
 	}
 	// vacuity guards
-	// (checked only when nothing fired: a defect that removes an outcome class must surface as its
-	// violation, not as a machinery error)
-	if only.is_none() && violations.is_empty() {
+	// (skipped when a mutation / verification / no-panic oracle fired: a defect that removes an outcome
+	// class must surface as its violation, not as a machinery error; round-trip findings do not
+	// remove outcome classes and do not disable the guards)
+	if only.is_none() && !violations.iter().any(|v| !v.oracle.contains("roundtrip")) {
 		let need = [
 			"b11.roundtrip.ok",
 			"b11.builder_rejected",
